@@ -27,7 +27,10 @@ THEOREMS = [P + t for t in (
     # rollback, sources (frame on the store), tie to the source
     "rollback_restores", "merge_does_not_alter_other_graphs", "sources_untouched_by_every_history", "merge_sources_untouched",
     "merge_iteration_order_irrelevant", "merge_on_networkx_store", "plans_are_the_modelled_ones", "tables_agree_with_model",
-    "generated_plans_safe")] + [
+    "generated_plans_safe",
+    # the source models move on between the calls (unmerge_adm takes an id)
+    "history_invariant_with_source_updates", "unmerge_after_source_update", "unmerge_reads_only_the_combined_model")] + [
+    "FimVerif.Cbm.WInv.urun", "FimVerif.Cbm.WInv.update", "FimVerif.Cbm.Tracks.mono", "FimVerif.Cbm.unmerge_ignores_sources",
     "FimVerif.Cbm.merge_step", "FimVerif.Cbm.merge_WF", "FimVerif.Cbm.unmerge_merge", "FimVerif.Cbm.unmerge_step",
     "FimVerif.Cbm.Tracks.merge", "FimVerif.Cbm.Tracks.unmerge", "FimVerif.Cbm.WInv.step", "FimVerif.Cbm.mergeN_succeeds_iff",
     "FimVerif.Cbm.mergeAdm_frame", "FimVerif.Cbm.unmergeAdm_frame", "FimVerif.Cbm.srun_frame"]
@@ -85,6 +88,7 @@ class Session:
         self.cbm = L.new_cbm(self.imp, CBM)
         self.snaps = []          # model index -> uuid
         self.src0 = [L.snapshot(self.imp, s["id"]) for s in family]
+        self.cur = list(family)  # the version of each model the store holds now (an `edit` op changes it)
 
     def cbm_ids(self):
         G = self.imp.storage.get_graph(CBM)
@@ -92,8 +96,11 @@ class Session:
 
     def request(self, op):
         """The line the model gets for this op (computed before the op runs)."""
+        if op[0] == "edit":
+            # the model's store gets the version of the source the edit left (call this AFTER the op for edits)
+            return ["edit", self.cur[op[1]]]
         if op[0] == "merge":
-            spec = self.family[op[1]]
+            spec = self.cur[op[1]]
             order = L.common_order(self.cbm_ids(), [n[0] for n in spec["nodes"]])
             return ["merge", spec, order]
         if op[0] == "unmerge":
@@ -114,6 +121,14 @@ class Session:
             elif op[0] == "rollback":
                 k = op[1]
                 self.cbm.rollback(graph_id=self.snaps[k] if k < len(self.snaps) else "no-such-snapshot-%d" % k)
+            elif op[0] == "edit":
+                # not a call of the combined model: the source model moves on in the store (in place / reloaded / deleted)
+                i = op[1]
+                try:
+                    self.cur[i] = L.apply_edit(self.imp, self.family[i]["id"], op[2], op[3])
+                except Exception:
+                    self.cur[i] = L.spec_of_graph(self.imp, self.family[i]["id"])
+                self.src0[i] = L.snapshot(self.imp, self.family[i]["id"])
             r = "ok"
         except Exception as e:
             r = err_kind(e)
@@ -149,12 +164,26 @@ def canon_model_reply(line):
 # case generation
 
 
-def gen_ops(rng, k, n):
+def gen_ops(rng, k, n, family=None, p_edit=0.0):
     """Random history; biased towards the meaningful choices (merge a model that is not part of the combined model, unmerge one
     that is - first, middle or last -, snapshot a non-empty model, roll back to a snapshot that exists) without excluding the
     others.  `live` / `nsnap` follow what the calls are expected to do (a snapshot of an empty model does not get an index)."""
     ops, nsnap, live, snaps_live = [], 0, [], []
-    for _ in range(n):
+    cur = list(family) if family else None
+    for step in range(n):
+        if cur is not None and rng.random() < p_edit:
+            # the source model moves on: preferably one that is part of the combined model (then unmerge it / merge it again later)
+            i = rng.choice(live) if live and rng.random() < 0.8 else rng.randrange(k)
+            kind, arg = L.gen_edit(rng, cur[i], family, i, step)
+            cur[i] = L.edit_spec(cur[i], kind, arg)
+            ops.append(("edit", i, kind, arg))
+            if i in live and rng.random() < 0.7:
+                live.remove(i)
+                ops.append(("unmerge", i))
+                if rng.random() < 0.6:
+                    ops.append(("merge", i))
+                    live.append(i)
+            continue
         r = rng.random()
         t_merge, t_unmerge, t_snap = (0.75, 0.85, 0.90) if not live else (0.35, 0.65, 0.82)
         if r < t_merge:
@@ -240,6 +269,12 @@ def gen_cases(ctx, tag, nfam, nhist, with_ads=True, ads_perms=True):
             fam = malformed_family(rng)
             k = len(fam)
         cases.append((fam, gen_ops(rng, k, rng.randrange(3, 16))))
+    # histories in which the source models move on between the calls (own random stream: the histories above stay what they were)
+    erng = ctx.sub_rng(tag + "-edit")
+    for i in range(nhist // 3):
+        k = erng.randrange(1, 5)
+        fam = L.gen_family(erng, k) if erng.random() < 0.6 else L.gen_raw_family(erng, k)
+        cases.append((fam, gen_ops(erng, k, erng.randrange(3, 16), family=fam, p_edit=erng.choice([0.15, 0.3]))))
     if with_ads:
         ads = L.repo_ad_specs()
         fam = [ads[n] for n in L.ADS]
@@ -273,12 +308,17 @@ def correspondence(ctx, res):
         impl.append({"r": "ok", "cbm": {"nodes": [], "edges": []}, "val": None, "src": True, "agree": True, "stray": 0})
         meta.append((ci, "reset"))
         for op in ops:
-            req = s.request(op)
+            if op[0] == "edit":
+                r = s.do_corr(op)
+                req = s.request(op)
+            else:
+                req = s.request(op)
             if op[0] == "merge" and len(req[2]) >= 2:
                 store_order = [i for i in s.cbm_ids() if i in set(req[2])]
                 res.count("case:merge:set-order-%s-store-order" % ("equals" if store_order == req[2] else "differs-from"))
             lines.append(json.dumps(req))
-            r = s.do_corr(op)
+            if op[0] != "edit":
+                r = s.do_corr(op)
             impl.append(r)
             meta.append((ci, op))
             res.count("op:" + op[0])
@@ -469,7 +509,9 @@ def run_history(res, family, ops):
     case = {"family": family, "ops": [list(o) for o in ops]}
     s = Session(family)
     merged = []                 # indices currently contributing, None when no longer tracked
-    snap_info = {}              # snapshot index -> (canonical cbm, merged list)
+    snap_info = {}              # snapshot index -> (canonical cbm, merged list, versions)
+    view = list(family)         # per model: the version that was merged (what the combined model holds of it); the source may
+    #                             move on in the store afterwards (`edit`) - unmerge takes an id, not a model
 
     def bad(sig, what, **kw):
         res.violation("C14:" + sig, what, case, **kw)
@@ -481,23 +523,34 @@ def run_history(res, family, ops):
         if ch:
             bad("sources-altered:" + op[0], "a source model was altered by %s" % op[0], observed=ch)
         g = r["cbm"]
+        if op[0] == "edit":
+            res.count("edit:%s:%s" % (op[2], "while-merged" if merged and op[1] in merged else "other"))
+            if g != before:
+                bad("edit-of-source-changes-cbm", "a change of a source model in the store changed the combined model", observed=list(op[:3]))
+            continue
         if op[0] == "merge":
             i = op[1]
-            art = is_artefact(r, before, family[i])
+            spec_i = s.cur[i]       # the version of the model the store holds now
+            art = is_artefact(r, before, spec_i)
             if art:
                 res.count("merge:all-nodes-common-artefact")
             okish = r["r"] == "ok" or art
             if merged is not None:
                 if okish and i not in merged:
                     merged.append(i)
-                    check_global(res, case, g, family, merged, "merge")
-                    check_merge_step(res, case, before, g, family[i])
+                    view[i] = spec_i
+                    check_global(res, case, g, view, merged, "merge")
+                    check_merge_step(res, case, before, g, spec_i)
+                elif okish and spec_i != view[i]:
+                    # an updated version merged while the old one is still part of the combined model: the property does not say
+                    res.count("merge:updated-version-while-old-one-merged")
+                    merged = None
                 elif okish:
                     # the same model merged again while it is part of the combined model: nothing but the provenance may
                     # change, and the provenance then lists the model twice (known finding; theorem remerge_counterexample)
-                    check_remerge(res, case, before, g, family[i])
+                    check_remerge(res, case, before, g, spec_i)
                     merged = None       # one unmerge will not take its elements out any more: stop tracking
-                elif i not in merged and _wellformed(family[i]) and not _has_conflict(before, family[i]):
+                elif i not in merged and _wellformed(spec_i) and not _has_conflict(before, spec_i):
                     bad("merge:raises:" + r["r"], "merge of a well-formed model without conflicting delegations raised", observed=r["r"])
             if not okish and g != before:
                 merged = None           # partial merge left behind (C09's subject); stop tracking
@@ -505,9 +558,11 @@ def run_history(res, family, ops):
             if r["r"] == "ok":
                 if merged is not None and not isinstance(op[1], str) and op[1] in merged:
                     merged.remove(op[1])
+                    if s.cur[op[1]] != view[op[1]]:
+                        res.count("unmerge:source-moved-on-since-merge:" + ("gone" if not s.cur[op[1]]["nodes"] else "changed"))
                     if merged:
-                        check_global(res, case, g, family, merged, "unmerge")
-                        check_unmerge_step(res, case, before, g, family, merged, op[1])
+                        check_global(res, case, g, view, merged, "unmerge")
+                        check_unmerge_step(res, case, before, g, view, merged, op[1])
                     elif g["nodes"]:
                         bad("unmerge:not-empty", "unmerging the last model leaves elements behind", observed=[n[0] for n in g["nodes"]][:5])
                 elif g != before and merged is not None:
@@ -516,7 +571,7 @@ def run_history(res, family, ops):
                 bad("unmerge:raises:" + r["r"], "unmerge raised on a combined model built by merges", observed=r["r"])
         elif op[0] == "snapshot":
             if r["r"] == "ok":
-                snap_info[r["val"]] = (before, None if merged is None else list(merged))
+                snap_info[r["val"]] = (before, None if merged is None else list(merged), list(view))
                 if g != before:
                     bad("snapshot:alters-cbm", "taking a snapshot altered the combined model")
             elif not before["nodes"]:
@@ -526,11 +581,12 @@ def run_history(res, family, ops):
         elif op[0] == "rollback":
             k = op[1]
             if k in snap_info:
-                want, m = snap_info.pop(k)
+                want, m, vw = snap_info.pop(k)
                 if r["r"] != "ok" or g != want:
                     bad("rollback:not-restored", "rollback to a snapshot taken before does not restore the combined model",
                         expected=_brief({"r": "ok", "val": None, "cbm": want}), observed=_brief(r))
                 merged = m
+                view = list(vw)
             else:
                 merged = None if g["nodes"] else []
     return s
@@ -549,9 +605,9 @@ def _wellformed(spec):
     return bool(spec["nodes"]) and all((d is None or (isinstance(d, dict) and len(d) == 1 and "?raw" not in d)) for n in spec["nodes"] for d in (n[2], n[3]))
 
 
-def check_inverse(res, family, prefix, i):
-    """merge(prefix...) ; merge i ; unmerge i  ==  merge(prefix...)   (modulo '' == absent)."""
-    case = {"family": family, "ops": [["merge", j] for j in prefix] + [["merge", i], ["unmerge", i]]}
+def check_inverse(res, family, prefix, i, edit=None):
+    """merge(prefix...) ; merge i ; [the source of i moves on in the store ;] unmerge i  ==  merge(prefix...)   (modulo '' == absent)."""
+    case = {"family": family, "ops": [["merge", j] for j in prefix] + [["merge", i]] + ([list(edit)] if edit else []) + [["unmerge", i]]}
     s = Session(family)
     for j in prefix:
         if s.do(("merge", j))["r"] != "ok":
@@ -560,6 +616,9 @@ def check_inverse(res, family, prefix, i):
     r = s.do(("merge", i))
     if r["r"] != "ok" and not is_artefact(r, before, family[i]):
         return
+    if edit:
+        s.do(tuple(edit))
+        res.count("inverse:source-moved-on:" + edit[2])
     r2 = s.do(("unmerge", i))
     res.evaluations += 1
     if not before["nodes"]:
@@ -669,6 +728,7 @@ def classify_order_difference(res, case, family, g0, g1):
 
 def oracle(ctx, res, nfam=None, nhist=None):
     rng = ctx.sub_rng("oracle")
+    erng = ctx.sub_rng("oracle-edit")
     nfam = nfam or ctx.scale(40, 320)
     nhist = nhist or ctx.scale(100, 800)
     # 1. deterministic corpus / corner cases and random histories
@@ -694,6 +754,9 @@ def oracle(ctx, res, nfam=None, nhist=None):
             others = [j for j in range(k) if j != i]
             for m in range(len(others) + 1):
                 check_inverse(res, fam, others[:m], i)
+                if fam[i]["nodes"]:
+                    kind, arg = L.gen_edit(erng, fam[i], fam, i, m)
+                    check_inverse(res, fam, others[:m], i, edit=("edit", i, kind, arg))
         res.nontrivial.add(canon(fam))
     L.fresh_store()
     res.sample({"family_ids": [f["id"] for f in fams[2]], "checked": "all permutations equal; merge;unmerge = id; union/provenance/delegations per step"})
@@ -732,6 +795,8 @@ def check_everything(res, family, ops):
         others = [j for j in range(len(family)) if j != i]
         for m in range(len(others) + 1):
             check_inverse(res, family, others[:m], i)
+            for e in [o for o in ops if o[0] == "edit" and o[1] == i][:2]:
+                check_inverse(res, family, others[:m], i, edit=e)
             # merge everything, unmerge i: elements only i contributed go, the others' stay (provenance bookkeeping)
         run_history(res, family, [("merge", j) for j in others] + [("merge", i), ("unmerge", i)] + [("unmerge", j) for j in others])
         run_history(res, family, [("merge", i)] + [("merge", j) for j in others] + [("unmerge", i)])
@@ -767,6 +832,8 @@ def replay(ctx, payload):
             check_permutations(r, fam)
         if len(ops) >= 2 and ops[-1][0] == "unmerge" and ops[-2] == ("merge", ops[-1][1]):
             check_inverse(r, fam, [o[1] for o in ops[:-2]], ops[-1][1])
+        if len(ops) >= 3 and ops[-1][0] == "unmerge" and ops[-2][0] == "edit" and ops[-3] == ("merge", ops[-1][1]):
+            check_inverse(r, fam, [o[1] for o in ops[:-3]], ops[-1][1], edit=ops[-2])
     L.fresh_store()
     sig = payload.get("signature")
     for v in r.violations:
